@@ -580,7 +580,8 @@ def check_hist_stage_b(ctx, pool):
             if got != want:
                 j = next(x for x in range(len(got)) if got[x] != want[x])
                 e = h['ev'][j]
-                ctx.violation('C02/verifier-objects/%s/replay/%s' % (cls, 'rejects-packet-of-its-own-key' if want[j] else 'accepts-packet-of-another-key-or-name'),
+                ctx.violation('C02/verifier-objects/%s/replay/%s' % (cls, 'rejects-packet-of-its-own-key' if want[j] else
+                                                                     'accepts-tampered-packet' if e['tam'] else 'accepts-packet-of-another-key-or-name'),
                               'verifier objects %s asked %s answered %s, TLC state says %s' % (insts, checks, got, want),
                               {'kind': 'check-history', 'cls': cls, 'insts': insts, 'checks': [list(c) for c in checks]})
             hists.append(h)
@@ -646,7 +647,7 @@ def run_sign_history(ctx, kind, kinds, pool, big=False):
     sg0 = reuse_sg(kind, ctx.rng)
     kl = pk.name_bytes(sg0['kl'], ctx.rng) if sg0['haskl'] else None
     inner = pk.make_inner(sg0, pool, kl)
-    ev, recs = [], []
+    ev, recs, hold = [], [], []
     for k in kinds:
         if kind == 'digestI' and k != 'interest':
             k = 'interest'
@@ -654,11 +655,26 @@ def run_sign_history(ctx, kind, kinds, pool, big=False):
         cfg['sg'] = json.loads(json.dumps(sg0))
         if k == 'interest':
             cfg['name'] = [c for c in cfg['name'] if c['t'] != pk.T_PD] if ctx.rng.random() < 0.7 else cfg['name']
-        rec = record(ctx, cfg, pool, live=(inner, kl), ntamper=4)
+        rec = record(ctx, cfg, pool, live=(inner, kl), ntamper=4, hold=hold)
         own = bool(rec and not rec['refused'] and rec.get('own'))
         ev.append({'a': 'Sign', 'kind': k, 'own': own})
         if rec and not rec['refused']:
             recs.append(rec)
+    same = []
+    for h in hold:
+        ok = True
+        if h is not None:
+            sp = h['sp']
+            ok = bytes(h['raw']) == h['wire'] and b''.join(bytes(c) for c in (sp.signature_covered_part or [])) == h['cov'] \
+                and (None if sp.signature_value_buf is None else bytes(sp.signature_value_buf)) == h['sv']
+            if ok and h['ver'] is not None and h['ver'].has:
+                ok = bool(h['ver'].accepted(h['name'], sp))
+            if not ok:
+                ctx.violation('C02/signer-reuse/%s/%s/held-packet-changed' % (kind, h['cfg']['kind']),
+                              'a packet made earlier with this signer (returned buffer and SignaturePtrs kept by the caller) no longer '
+                              'reads or verifies as it did after later packets were made', {'kind': 'sign-history', 'signer': kind, 'kinds': list(kinds)})
+        same.append(ok)
+    ev.append({'a': 'Recheck', 'same': same})
     return {'signer': kind, 'ev': ev}, recs
 
 
@@ -668,10 +684,12 @@ def judge_sign_histories(ctx, hists, recs, stage):
         h = hists[i]
         k = int(str(at).strip() or 0)
         e = h['ev'][k - 1] if 0 < k <= len(h['ev']) else {'kind': 'end'}
+        if e.get('a') == 'Recheck':
+            continue        # reported by run_sign_history as held-packet-changed
         ctx.violation('C02/signer-reuse/%s/%s/packet-%s/signature-not-over-own-signed-portion' % (
             h['signer'], e['kind'], 'first' if k == 1 else 'later'),
             'packet #%d signed with one %s signer object is not verifiable over its own signed portion; events %s' % (k, h['signer'], h['ev']),
-            {'kind': 'sign-history', 'signer': h['signer'], 'kinds': [e_['kind'] for e_ in h['ev']], 'rejected_at': k})
+            {'kind': 'sign-history', 'signer': h['signer'], 'kinds': [e_['kind'] for e_ in h['ev'] if e_['a'] == 'Sign'], 'rejected_at': k})
     rejected = pk.judge(ctx, 'NdnPacketsTrace', 'NdnPacketsTrace.cfg', recs, 'c02-signhist-pk-' + stage)
     report_trace_rejections(ctx, recs, rejected)
     return rej
@@ -729,7 +747,7 @@ def sign_hist_stage_c(ctx, pool):
     ctx.note('C: %d random signer-reuse histories (%d packets) judged by TLC, %d rejected' % (len(hists), len(recs), len(rej)))
 
 
-def record(ctx, cfg, pool, live=None, ntamper=14):
+def record(ctx, cfg, pool, live=None, ntamper=14, hold=None):
     """Stage C: build, observe the parser's ranges as offsets, tamper at random offsets, record outcomes.
     live: (signer object, key locator) of a signer that is being reused. The record gets rec['own'] = the fresh
     packet verifies (library verifier and PyCryptodome directly) over exactly its own signed portion."""
@@ -762,6 +780,15 @@ def record(ctx, cfg, pool, live=None, ntamper=14):
            'signed': sg if signed(cfg) else [], 'digest': dg if need_digest(cfg) else [], 'sv': sv,
            'dv': dv if need_digest(cfg) else [], 'tampers': []}
     ver = Verifier(cfg, b, pool) if signed(cfg) else None
+    if hold is not None:
+        # the application keeps the returned buffer and the SignaturePtrs of its parse (views into that buffer)
+        try:
+            hname, _, _, hsp = parse(cfg, b.raw)
+            hold.append({'cfg': cfg, 'raw': b.raw, 'wire': wire, 'name': hname, 'sp': hsp, 'ver': ver,
+                         'cov': b''.join(bytes(c) for c in (hsp.signature_covered_part or [])),
+                         'sv': None if hsp.signature_value_buf is None else bytes(hsp.signature_value_buf)})
+        except Exception:  # noqa
+            hold.append(None)
     rec['own'] = True
     if ver is not None and ver.has:
         who = '%s/%s' % (cfg['kind'], cfg['sg']['kind'])
